@@ -649,3 +649,55 @@ def run_unit_time(ctx, n, pred, what):
     ctx.traces_validated += n_eval
     ctx.distribution["unit_time_runs"] = cnt
     ctx.rule += "; plus %s on real runs with unit_time = 2 or 3 (real code only; clauses that index the logs by the clock are skipped)" % what
+
+
+# ---- C10 in backward runs -------------------------------------------------------------------------------
+
+def run_c10_backward(ctx, n):
+    """backward_simulate on a fresh object with project absence steps, both values of the auto-task flag: the whole
+    result against the model (BWD), and on the unreversed logs the flag clause: a component-free automatic task that
+    is in progress at an absence step loses exactly its rate there iff the flag is set"""
+    import gen as _gen
+    n_eval = 0
+    fps = set()
+    with Driver() as drv:
+        for i in range(n):
+            rng = random.Random(ctx.seed * 7177 + i * 313 + 3)
+            spec = _gen.decorate(_gen.gen_auto_theme(rng)) if rng.random() < 0.5 else _gen.gen_spec(rng, "full")
+            params = _gen.gen_params(rng, spec)
+            params.pop("warmup", None)
+            flag = rng.random() < 0.6
+            A = sorted(set(rng.choice([0, 1, 2, 3, 4]) for _ in range(rng.randint(1, 3))))
+            p = dict(params, absence=A, autoFlag=flag, maxTime=40, initState=True, initLog=True)
+            ops = [dict(op="bwd", params=p, due=False, reverse=False)]
+            case = dict(stream="c10-backward", seed=ctx.seed, index=i, spec=spec, ops=ops)
+            h = run_history(spec, ops, drv)
+            count_ops(ctx, ops)
+            record_dis(ctx, h, case)
+            n_eval += 1
+            if not h["states"] or h["exc"][0]:
+                continue
+            st, model = h["states"][0], h["model"]
+            for t, tk in enumerate(model["tasks"]):
+                if not tk["isAuto"] or tk["comp"] is not None:
+                    continue
+                rem, log = st["tRem"][t], st["tState"][t]
+                for k in A:
+                    if k < 1 or k >= len(rem) or k >= len(log):
+                        continue
+                    before, after = codec.to_frac(rem[k - 1]), codec.to_frac(rem[k])
+                    in_progress = log[k] == 1 and log[k - 1] in (1, 2) and before > 0   # shown READY at an absence step
+                    if not in_progress:
+                        continue
+                    if flag and before - after != codec.to_frac(tk["autoRate"]):
+                        ctx.violations.append(dict(property="C10", what="backward run: automatic task %d did not progress at absence step %d although the flag is set" % (t, k), case=case))
+                        break
+                    if not flag and before != after:
+                        ctx.violations.append(dict(property="C10", what="backward run: automatic task %d progressed at absence step %d although the flag is off" % (t, k), case=case))
+                        break
+            if st["time"] >= 2:
+                fps.add(json.dumps([spec, p], sort_keys=True, default=str))
+    ctx.evaluations += n_eval
+    ctx.traces_validated += n_eval
+    ctx.distinct_nontrivial += len(fps)
+    ctx.rule += "; plus backward_simulate with project absence steps and both flag values (whole result against the model; flag clause on the unreversed logs)"
